@@ -24,6 +24,13 @@ def run(ctx):
                 "(all-first, all-last, seeded) on a 606-word list with lengths up to 7; non-trivial = a returned password with >= 2 tokens; distinct token sequences")
     ctx.model_check("MC_WordGen", "MC_WordGen.cfg", "WordGen: OutStructure, CapsShape, ErrIff, EntropyComputedOnce over recipe universe incl. L = 1, "
                     "empty and functional-empty separators", workers=vlib.NCPU, constants={"MaxLen": 2 if quick else 3})
+    # the token assembly loop for EVERY length (Apalache, inductive): one atom per position, separators only between atoms
+    ok0, _ = ctx.apalache("WordGenApa", inv="IndInv", length=0, init="Init")
+    ok1, _ = ctx.apalache("WordGenApa", inv="IndInv", length=1, init="IndInv")
+    if not (ok0 and ok1):
+        raise vlib.Undecided("Apalache refutes the inductive invariant of the token assembly loop (model-level)")
+    ctx.cover["apalache"] = ("WordGenApa.IndInv is inductive for symbolic Length up to 100000 and separators that are empty or not gap by gap: Length atoms, "
+                             "at most one separator token per gap and none leading or trailing, at most one capital under the `one' scheme")
     scen = [wlfam.tree_scen(rng, uniform_only=False, uncap_prob=0.4, budget=2500 if quick else 12000) for _ in range(90 if quick else 900)]
     scen += shipped(rng, 40 if quick else 600) + wlfam.directed_trees(rng)
     scen += wlfam.line_scenarios(rng, quick, None if quick else wlfam.shipped_lists(ctx))
